@@ -390,7 +390,7 @@ contract(
     ensures={
         "only-exported-members": f"all(n in {_OGS} and n in glyphNames for n in result)",
         "every-exported-member": f"all(implies(n in glyphNames, n in result) for n in {_OGS})",
-        "increasing": "all(all(implies(k1 < k2, result[k1] <= result[k2]) for k2 in range(len(result))) for k1 in range(len(result)))",
+        "increasing": "all(result[k] <= result[k + 1] for k in range(len(result) - 1))",
     },
     canaries={"empty": "len(result) == 0"},
 )
